@@ -6,7 +6,7 @@
    arbitrary statement-level interleavings of several tasks, with crashes. *)
 From Coq Require Import List NArith Bool.
 From Shovel Require Import Model.TaskTypes Model.TaskDb Model.Task Model.TaskNode Model.TaskSys
-  Model.TaskSpec Proofs.C04P.
+  Model.TaskSpec Proofs.C04P Proofs.TaskSysP.
 Import ListNotations.
 Open Scope N_scope.
 
@@ -45,6 +45,25 @@ Theorem other_tasks_preserve_inv : forall cfgs d sch m c,
   TaskInv c (s_db (sys_step (sys_run sch (sys_init cfgs d)) m)).
 Proof. exact other_moves_keep_inv. Qed.
 Print Assumptions other_tasks_preserve_inv.
+
+(* THE SYSTEM INVARIANT.  Any number of tasks with pairwise distinct
+   (source, integration) pairs, every one's TaskInv holding initially; any
+   schedule -- which task moves next, what the world answers to the operation it
+   issues: the database's own answer, an injected fault of any kind, a forced
+   dependency reading, any node reply numbered as requested ([sched_ok]) -- and
+   process deaths at any point: in EVERY state of the run EVERY task's TaskInv
+   holds (rows cover exactly the blocks up to the position, for every pair, in
+   every state any session can observe).  Composition of the single-task
+   invariant (C02) with the frame: a step's effect on its own pair depends on
+   the rest of the database only through the dependency readings, and the
+   single-task logic already allows those to be anything ([safe_pv]). *)
+Theorem system_invariant : forall cfgs d sch,
+  Forall cfg_ok cfgs -> NoDup (map pair_of cfgs) -> Forall (fun c => TaskInv c d) cfgs ->
+  sched_ok sch (sys_init cfgs d) ->
+  forall st, In st (sys_states sch (sys_init cfgs d)) ->
+  forall c, In c cfgs -> TaskInv c (s_db st).
+Proof. exact system_inv_lemma. Qed.
+Print Assumptions system_invariant.
 
 (* non-vacuity: two tasks on one table, different integrations *)
 Example two_pairs_differ :
